@@ -633,6 +633,16 @@ VALID_FOR_FAULTS = [
     "{ items nitems obj { items nitems } }",
     "query { ...F }\nfragment F on Query { obj { ...G } }\nfragment G on Obj { a nn }",
     "{\r  nn\r  obj {\r\n nn }\r}",
+    # one response key selected more than once (merged field nodes): directly, under an alias, through a
+    # fragment spread, through an inline fragment, under duplicated parents, inside lists, in a mutation
+    "{ nn a nn s a }",
+    "{ x: nn x: nn y: a y: a }",
+    "{ nn ...F a }\nfragment F on Query { nn a s }",
+    "{ nn ... on Query { nn a } ... { nn } }",
+    "{ obj { nn a } obj { nn s child { nn } } obj { child { nn a } } }",
+    "{ objs { nn } objs { nn a } items items nitems ... { nitems } }",
+    "mutation { n m(x: 1) n m(x: 1) }",
+    "{ nnobj { items nn } ...G nnobj { items } }\nfragment G on Query { nnobj { nn ... on Obj { nn items } } }",
 ]
 MAX_PATHS = 16
 
